@@ -103,7 +103,7 @@ def to_z3(v, real=False):
         return z3.RealVal(str(v.numerator) + '/' + str(v.denominator))
     if isinstance(v, float):
         f = Fraction(v).limit_denominator(10 ** 6)
-        if abs(float(f) - v) > 4e-16 * max(1.0, abs(v)):
+        if abs(float(f) - v) > 4e-16 * abs(v):          # relative: a tiny constant (machine epsilon) must not become 0
             f = Fraction(v)
         return z3.RealVal(str(f.numerator) + '/' + str(f.denominator))
     if isinstance(v, z3.ExprRef):
@@ -691,3 +691,17 @@ def run_block(stmts, glb, loc, filename='<extracted>'):
     code = compile(mod, filename, 'exec')
     exec(code, glb, loc)
     return loc.pop('_completed')
+
+
+def run_block_status(stmts, glb, loc, filename='<extracted>'):
+    """like run_block, but tells how the block ended: 'completed' | 'break' | 'continue'"""
+    import ast
+    body = list(stmts) + [ast.Assign(targets=[ast.Name(id='_status', ctx=ast.Store())], value=ast.Constant('completed'))]
+    loop = ast.For(target=ast.Name(id='_once', ctx=ast.Store()), iter=ast.Tuple(elts=[ast.Constant(0)], ctx=ast.Load()), body=body,
+                   orelse=[ast.If(test=ast.Compare(left=ast.Name(id='_status', ctx=ast.Load()), ops=[ast.NotEq()], comparators=[ast.Constant('completed')]),
+                                  body=[ast.Assign(targets=[ast.Name(id='_status', ctx=ast.Store())], value=ast.Constant('continue'))], orelse=[])])
+    mod = ast.Module(body=[ast.Assign(targets=[ast.Name(id='_status', ctx=ast.Store())], value=ast.Constant('break')), loop], type_ignores=[])
+    ast.fix_missing_locations(mod)
+    exec(compile(mod, filename, 'exec'), glb, loc)
+    loc.pop('_once', None)
+    return loc.pop('_status')
